@@ -113,9 +113,16 @@ class RedisMessageBroker(MessageBrokerT):
         else:  # pragma: no cover
             params = self.PARAMETERS_CLASS()
 
-        reject_to = "n"  # normal queue
-        if raw_params[1] is not None:
-            reject_to = raw_params[1].decode()
+        if raw_params[1] is None:
+            # the message isn't marked as processing (anymore): it was acked, nacked, requeued
+            # or rejected already - putting its name to a queue would create a phantom message
+            logger.debug(
+                "Not rejecting message ({routing_key}) which is not being processed.",
+                extra={"routing_key": key},
+            )
+            return
+
+        reject_to = raw_params[1].decode()
 
         async with self.conn.pipeline(transaction=True) as pipe:
             if reject_to == "dead":
